@@ -19,15 +19,17 @@ def encPos (p : Pos) : J := .str (p.1 ++ "#/" ++ String.intercalate "/" p.2)
 
 def hops : Nat := 64
 
-/-- the external functions `Flatten.isNF` looks at: `$ref` decoding and the format registry -/
-def nfExt (x : Classify.Ext) : Flatten.Ext where
-  mkRef := fun _ => none
+/-- the external functions `Flatten.isNF` looks at: `$ref` decoding, the format registry and — for the
+    operations index behind the names of inline schemas — `swag.ToGoName`, the spelling of `$ref`s to
+    operations and `http.StatusText`, as tables computed by the real libraries on the output document -/
+def nfExt (x : Classify.Ext) (e : J) : Flatten.Ext where
+  mkRef := fun k => match lookup k (e.getObj "mkRef") with | some (.str v) => some v | _ => none
   jsonName := fun _ => none
-  goName := fun _ => none
+  goName := fun k => match lookup k (e.getObj "goName") with | some (.str v) => some v | _ => none
   fold := fun _ => none
   refTokens := x.refTokens
   knownFormat := x.knownFormat
-  statusText := fun _ => none
+  statusText := fun k => match lookup k (e.getObj "statusText") with | some (.str v) => some v | _ => none
 
 def nfOpts (opts : J) : Flatten.Opts :=
   let flag := fun k => match opts.get? k with | some (.bool true) => true | _ => false
@@ -89,6 +91,6 @@ def run (fc : Facts) (inp : J) : J :=
     ("inlineComplex", .arr ((Spec.Flat.inlineComplex fc x root2).map fun t => .str (Spec.Index.key t))),
     ("cyclicInput", .bool (Spec.Flat.cyclic b1)),
     -- C08: is the output a normal form of the phase model (Flatten.isNF; theorem C08.identity_on_normal_forms)?
-    ("isNF", .bool (Flatten.isNF fc (nfExt x) (nfOpts opts) root2))]
+    ("isNF", .bool (Flatten.isNF fc (nfExt x ((inp.get? "ext").getD .null)) (nfOpts opts) root2))]
 
 end FlatDriver
